@@ -138,7 +138,7 @@ func encAuth2(t util.EFITime, length uint32, rev uint16, typ uint16, g util.EFIG
 
 func runC10(c *Ctx) {
 	rng := c.Rng
-	maxData := c.N(2048, 65536)
+	maxData := c.Bound(2048, 65536)
 	evalAuth := func(class string, in []byte, entry string) {
 		o := c.Impl(entry, hx(in))
 		fields := o.Fields
